@@ -47,7 +47,7 @@ PROPS = {
               "thorough": [["store-C01", "--scenarios", "40", "--ops", "3000"]]},
         trusted=STORE_TRUST,
         statement="refinement of Add/Update/Remove/Get/IDs/Count to a finite map over all histories",
-        partial="proved (span-file level, unbounded): for every operation sequence of WriteRecord/RemoveRecord from any state satisfying the representation invariant, the invariant holds again and the stored streams are the fold of the map specification (C01.store_refines), ReadRecord answers the specification (read_is_spec), no step panics (step_total), a new file satisfies the invariant (new_file_is_rep); plus the 7-code and span round trips. Hypothesis FitsAll = the format's own limit (records and the grown file below 2^32 bytes; beyond it the 32-bit length field cannot describe a span). Collection layer: for every sequence of AddDocument/UpdateDocument/removeDocument the collection stands for the fold of the finite-map specification over (metadata bytes, quantization codes), GetDocument returns the specification's document (C01.documents_refine, get_document_is_spec, new_collection_is_empty, record_ids_distinct). Not proved: GetAllIDs/GetDocumentCount (checked by the spec oracle on the implementation), the float<->code step (C12), the index side of the API (C05)",
+        partial="proved (span-file level, unbounded): for every operation sequence of WriteRecord/RemoveRecord from any state satisfying the representation invariant, the invariant holds again and the stored streams are the fold of the map specification (C01.store_refines), ReadRecord answers the specification (read_is_spec), no step panics (step_total), a new file satisfies the invariant (new_file_is_rep); plus the 7-code and span round trips. Hypothesis FitsAll = the format's own limit (records and the grown file below 2^32 bytes; beyond it the 32-bit length field cannot describe a span). Collection layer: for every sequence of AddDocument/UpdateDocument/removeDocument the collection stands for the fold of the finite-map specification over (metadata bytes, quantization codes), GetDocument returns the specification's document (C01.documents_refine, get_document_is_spec, new_collection_is_empty, record_ids_distinct). GetAllIDs lists exactly the bound ids, ascending, each once, and GetDocumentCount is their number (ids_and_count_are_spec). Not proved here: the float<->code step (C12), the index side of the API (C05)",
     ),
     "C02": dict(
         modules=["Syzgy.Props.C02"], ties=["Storage"],
